@@ -8,7 +8,7 @@ EXPLANATION = ('Value-flow normal forms of Categorical::new (probs_i = w_i / sum
                'distribution\'s own generator, cumulative scan in index order, a STRICT selection comparison r < cum (with the half-open '
                'variate r in [0,1) a closed comparison selects a zero-probability first category at r = 0), result is the scan index or len-1. '
                'Sample frequencies and the floating-point fallback case are not decided.')
-FLOORS = {'obligations': 12}   # counted on the reference tree; fewer instantiated obligations is reported, never passed silently
+FLOORS = {'obligations': 13}   # counted on the reference tree; fewer instantiated obligations is reported, never passed silently
 TECHNIQUE = 'value-flow normal form + loop summary (exit condition, exit state) vs specification table'
 OBS = ['C16.new.norm', 'C16.logp', 'C16.target_fwd', 'C16.sample.variate', 'C16.sample.scan_order', 'C16.sample.strict',
        'C16.sample.result_is_index', 'C16.sample.fallback_in_range']
@@ -17,6 +17,8 @@ CAT = 'distributions::Categorical'
 
 def run(ctx):
     from .. import frame
+    _roots = [b for b in ctx.facts.bodies if ctx.facts.is_hand_written(b) and b['def_kind'] in ('Fn', 'AssocFn') and 'distributions::Categorical' in b['path'] and '::tests::' not in b['path']]
+    narrowing_budget(ctx, 'C16', 'distributions::Categorical', _roots, {}, why='probabilities, cumulative sums and the variate live in one element type: a value computed in a wider type and converted can round onto a boundary (e.g. a uniform rounding up to 1.0); a conversion to a fixed narrower float type (or an f64 -> element-type read-back) on this path changes values for wider element types / back ends', sp=None)
     frame.shadowing(ctx, 'C16', [CAT])
     frame.check_frame(ctx, 'C16', CAT, {'probs': {CAT + '::new'}, 'rng': {CAT + '::new', '<distributions::Categorical<T> as distributions::Discrete<T>>::sample'}},
                       why='probabilities are normalised once, at construction; any later writer can break normalisation')
